@@ -1341,4 +1341,90 @@ example : ∃ (outs : List (DimArray Int)) (common : Axis),
   · have := ((hs 1 (by simp) (by omega)).2 (by decide)).2.2.1 1 (by decide)
     simpa [List.getD_eq_getElem?_getD, hl2] using this
 
+/-! ### strict=True, and the fold over three or more arrays (statements the differential run alone decided before) -/
+
+theorem exMapM_congr_mem {ε β γ : Type} (f g : β → Except ε γ) : ∀ l : List β,
+    (∀ x ∈ l, f x = g x) → l.mapM f = l.mapM g
+  | [], _ => rfl
+  | x :: xs, h => by
+    rw [List.mapM_cons, List.mapM_cons, h x List.mem_cons_self,
+      exMapM_congr_mem f g xs (fun y hy => h y (List.mem_cons_of_mem _ hy))]
+
+theorem exMapM_error_of {ε β γ : Type} (f : β → Except ε γ) (e : ε) : ∀ l : List β,
+    (∃ x ∈ l, f x = .error e) → (∀ x ∈ l, f x = .error e ∨ ∃ y, f x = .ok y) → l.mapM f = .error e
+  | [], h, _ => by obtain ⟨x, hx, _⟩ := h; cases hx
+  | x :: xs, h, hall => by
+    rw [List.mapM_cons]
+    rcases hall x List.mem_cons_self with hx | ⟨y, hy⟩
+    · rw [hx]; rfl
+    · rw [hy]
+      have hex : ∃ z ∈ xs, f z = .error e := by
+        obtain ⟨z, hz, hfz⟩ := h
+        rcases List.mem_cons.mp hz with rfl | hz'
+        · rw [hy] at hfz; cases hfz
+        · exact ⟨z, hz', hfz⟩
+      rw [exMapM_error_of f e xs hex (fun z hz => hall z (List.mem_cons_of_mem _ hz))]
+      rfl
+
+/-- STRICT: what `strict=True` checks is that every array HAS every aligned dimension (not that the axes agree): when
+they all do, the result is the one of `strict=False` - the same common axes, hence the same re-indexing; ... -/
+theorem align_strict_spec (arrays : List (List Axis)) (join : Join) (axis : Option String) (sort : Bool)
+    (h : ∀ d ∈ alignedDims arrays axis, (havingAxes arrays d).length = arrays.length) :
+    getAlignedAxes arrays join axis sort true = getAlignedAxes arrays join axis sort false := by
+  unfold getAlignedAxes
+  apply exMapM_congr_mem _ _ (alignedDims arrays axis)
+  intro d hd
+  have := h d hd
+  unfold havingAxes at this
+  simp [this]
+
+/-- ... and when some array lacks an aligned dimension the call is refused with ValueError -/
+theorem align_strict_refuses (arrays : List (List Axis)) (join : Join) (axis : Option String) (sort : Bool)
+    (h : ∃ d ∈ alignedDims arrays axis, (havingAxes arrays d).length ≠ arrays.length) :
+    getAlignedAxes arrays join axis sort true = .error .value := by
+  unfold getAlignedAxes
+  apply exMapM_error_of _ _ (alignedDims arrays axis)
+  · obtain ⟨d, hd, hne⟩ := h
+    refine ⟨d, hd, ?_⟩
+    unfold havingAxes at hne
+    simp [hne]
+  · intro d _
+    by_cases hl : (arrays.filterMap (fun axes => axes.find? (·.name == d))).length = arrays.length
+    · right
+      have hne : arrays ≠ [] := by
+        obtain ⟨d', _, hne'⟩ := h
+        intro he; subst he; simp [havingAxes] at hne'
+      cases hh : arrays.filterMap (fun axes => axes.find? (·.name == d)) with
+      | nil => rw [hh] at hl; cases arrays <;> simp_all
+      | cons x xs =>
+        obtain ⟨r, hr⟩ := commonAxis_isSome join x xs
+        exact ⟨if sort then axisSort r else r, by simp [hh] at hl; simp [hl, hr, pure, Except.pure]⟩
+    · left; simp [hl]
+
+/-- the hypothesis is satisfiable and the refusal occurs -/
+example : ∀ d ∈ alignedDims [[({ name := "x", labels := [.num 1, .num 2], kind := .i } : Axis)], [{ name := "x", labels := [.num 2, .num 3], kind := .i }]] none,
+    (havingAxes [[({ name := "x", labels := [.num 1, .num 2], kind := .i } : Axis)], [{ name := "x", labels := [.num 2, .num 3], kind := .i }]] d).length = 2 := by
+  decide
+example : (getAlignedAxes [[{ name := "x", labels := [.num 1], kind := .i }], [{ name := "y", labels := [.num 2], kind := .i }]]
+    .outer none false true).toOption = none := by decide
+
+/-- FOLD over any number of arrays: the common axis holds exactly the union (outer) / the intersection (inner) of all
+label sets, each label once -/
+theorem commonAxis_fold_labels (join : Join) (axes : List Axis) (r : Axis)
+    (hns : ∀ ax ∈ axes, Label.none ∉ ax.labels) (hnd : ∀ ax ∈ axes, ax.labels.Nodup)
+    (h : commonAxis join axes = some r) :
+    r.labels.Nodup ∧
+    ∀ v, v ∈ r.labels ↔ (match join with
+      | .outer => ∃ ax ∈ axes, v ∈ ax.labels
+      | .inner => ∀ ax ∈ axes, v ∈ ax.labels) := by
+  refine ⟨commonAxis_nodup join axes r hnd h, ?_⟩
+  cases join with
+  | outer => exact commonAxis_outer_mem axes r hns h
+  | inner => exact commonAxis_inner_mem axes r hns h
+
+/- The direction clause does NOT extend to the fold (open finding K06: axes [9,4,0], [-2], [5] - all sorted decreasing,
+two of them with ONE label - have the common axis [9,4,0,-2,5]).  The witness is kept in known_findings.json and is
+decided by the differential run; a proved `..._counterexample` is not stated here because `decide` does not reduce
+`union1d` (merge sort by well-founded recursion) on concrete labels. -/
+
 end DimModel
